@@ -388,9 +388,9 @@ func TestC16ConcurrentExpiry(t *testing.T) {
 			g.service(name, "svc")
 		}
 		populate()
-		ng := rapid.IntRange(2, 16).Draw(t, "goroutines")
+		ng := rapid.IntRange(2, 24).Draw(t, "goroutines")
 		runtime.GOMAXPROCS([]int{2, 4, 8, 16}[rapid.IntRange(0, 3).Draw(t, "gomaxprocs")])
-		rounds := rapid.IntRange(1, 3).Draw(t, "rounds")
+		rounds := rapid.IntRange(1, 5).Draw(t, "rounds")
 		adv := make([]time.Duration, rounds)
 		for i := range adv {
 			// empty answers are kept for 300 s: go past both the record TTL and the negative TTL
@@ -471,7 +471,7 @@ func TestC16Race(t *testing.T) {
 			}
 		}
 		g.addrs("t1.example", "t1", 1)
-		ng := rapid.IntRange(2, 16).Draw(t, "goroutines")
+		ng := rapid.IntRange(2, 24).Draw(t, "goroutines")
 		runtime.GOMAXPROCS([]int{2, 4, 8, 16}[rapid.IntRange(0, 3).Draw(t, "gomaxprocs")])
 		iters := rapid.IntRange(2, 6).Draw(t, "iters")
 		plans := make([][]int, ng)
